@@ -20,6 +20,8 @@ pub struct Image {
     /// a second version of the same font (subset) for tear faults
     pub other: Option<&'static [u8]>,
     pub tables: Vec<(Tag, usize, usize)>,
+    /// real-world font from klippa's test data (see corpus.rs)
+    pub extended: bool,
 }
 
 pub fn images() -> &'static [Image] {
@@ -44,7 +46,7 @@ pub fn images() -> &'static [Image] {
                     crate::core::panics::reset();
                 }
             }
-            v.push(Image { name: f.name.clone(), data: f.data, other, tables });
+            v.push(Image { name: f.name.clone(), data: f.data, other, tables, extended: f.extended });
         }
         v
     })
@@ -65,6 +67,8 @@ pub enum ImgFault {
     SlotCopy { from: u32, to: u32, width: u8 },
     /// set a 16-bit field to an extreme value
     Extreme16 { at: u32, v: u16 },
+    /// one byte overwritten (stuck-at-zero / stuck-at-one byte)
+    SetByte { at: u32, v: u8 },
 }
 
 pub fn apply_fault(buf: &mut Vec<u8>, other: Option<&[u8]>, f: &ImgFault) -> bool {
@@ -135,6 +139,12 @@ pub fn apply_fault(buf: &mut Vec<u8>, other: Option<&[u8]>, f: &ImgFault) -> boo
             let a = (*at as usize % (n - 1)) & !1;
             buf[a..a + 2].copy_from_slice(&v.to_be_bytes());
             true
+        }
+        ImgFault::SetByte { at, v } => {
+            let a = *at as usize % n;
+            let changed = buf[a] != *v;
+            buf[a] = *v;
+            changed
         }
     }
 }
@@ -235,6 +245,7 @@ fn fault_counter(f: &ImgFault, table_level: bool) -> &'static str {
         (ImgFault::ByteTear { .. }, _) => "fault.image.byte_tear_between_versions",
         (ImgFault::SlotCopy { .. }, _) => "fault.image.slot_overwritten_by_other_slot",
         (ImgFault::Extreme16 { .. }, _) => "fault.image.field_set_to_extreme",
+        (ImgFault::SetByte { .. }, _) => "fault.image.byte_stuck_at_00_or_ff",
     }
 }
 
@@ -928,6 +939,12 @@ pub struct EnumTrace {
     pub only: Option<ImgFault>,
     pub cuts: u32,
     pub bits: u32,
+    /// first byte of the window in which bits are flipped and bytes are set to 0x00 / 0xFF (0: table start)
+    #[serde(default)]
+    pub start: u32,
+    /// also set every byte of the window to 0x00 and to 0xFF
+    #[serde(default)]
+    pub byte_sets: bool,
 }
 
 pub struct ReadEnum {
@@ -970,9 +987,18 @@ impl Engine for ReadEnum {
         let p = table_pairs();
         let (image, table, _) = p[(index % p.len() as u64) as usize];
         let round = (index / p.len() as u64) as u32;
-        EnumTrace { image, table, only: None, cuts: 96 + 160 * round.min(3), bits: (48 + 80 * round.min(3)) * 8 }
+        EnumTrace { image, table, only: None, cuts: 96 + 160 * round.min(3), bits: (48 + 80 * round.min(3)) * 8, start: 0, byte_sets: false }
     }
     fn execute(&self, t: &mut EnumTrace, stats: &mut Stats) -> Verdict {
+        enum_execute(self.skrifa, t, stats)
+    }
+    fn shrink(&self, _t: &EnumTrace) -> Vec<EnumTrace> {
+        vec![]
+    }
+}
+
+fn enum_execute(skrifa: bool, t: &mut EnumTrace, stats: &mut Stats) -> Verdict {
+    {
         let img = &images()[t.image];
         let Ok(fr) = FontRef::new(img.data) else { return Verdict::Inconclusive("corpus image does not open".into()) };
         let tag = Tag::new(&t.table);
@@ -985,8 +1011,18 @@ impl Engine for ReadEnum {
                 for cut in 0..payload.len().min(t.cuts as usize) {
                     faults.push(ImgFault::Truncate { at: cut as u32 });
                 }
-                for bit in 0..(payload.len() * 8).min(t.bits as usize) {
+                let first = t.start as usize * 8;
+                for bit in first..(payload.len() * 8).min(first + t.bits as usize) {
                     faults.push(ImgFault::BitFlip { bit: bit as u32 });
+                }
+                if t.byte_sets {
+                    for at in t.start as usize..payload.len().min(t.start as usize + t.bits as usize / 8) {
+                        for v in [0u8, 0xFF] {
+                            if payload[at] != v {
+                                faults.push(ImgFault::SetByte { at: at as u32, v });
+                            }
+                        }
+                    }
                 }
             }
         }
@@ -1003,7 +1039,7 @@ impl Engine for ReadEnum {
             let image = b.build();
             // record which fault is in flight so that a panic can be replayed alone
             t.only = Some(f.clone());
-            if self.skrifa {
+            if skrifa {
                 let mut sub = Stats::default();
                 d.u64(skrifa_sweep(&image, mix(t.image as u64, 7), Some(tag), &mut sub, 6, 3));
                 stats.bump("oracle.C02.total_sweep");
@@ -1014,11 +1050,73 @@ impl Engine for ReadEnum {
             }
         }
         t.only = None;
-        Verdict::Pass { digest: d.finish(), sig: fnv(&[t.image as u8, t.table[0], t.table[1], t.table[2], t.table[3], (t.cuts / 32) as u8]), nontrivial: !payload.is_empty() }
+        Verdict::Pass { digest: d.finish(), sig: fnv(&[t.image as u8, (t.image >> 8) as u8, t.table[0], t.table[1], t.table[2], t.table[3], (t.cuts / 32) as u8, (t.start / WINDOW) as u8, (t.start / WINDOW / 256) as u8]), nontrivial: !payload.is_empty() }
+    }
+}
+
+// ---- systematic enumeration beyond the headers: every bit and two byte values of one 64-byte window
+
+pub const WINDOW: u32 = 64;
+const WINDOWS_BEGIN: u32 = 256;
+
+/// (image, tag, window start): breadth first, i.e. the first window of every table, then the second, ...
+fn table_windows() -> &'static [(usize, [u8; 4], u32)] {
+    static P: OnceLock<Vec<(usize, [u8; 4], u32)>> = OnceLock::new();
+    P.get_or_init(|| {
+        let mut v = Vec::new();
+        let mut start = WINDOWS_BEGIN;
+        loop {
+            let mut any = false;
+            for (i, t, l) in table_pairs() {
+                // outline tables have their own enumeration with drawing (C02); bulk data tables carry no structure
+                if matches!(t, b"glyf" | b"CFF " | b"CFF2" | b"gvar" | b"CBDT" | b"EBDT" | b"sbix" | b"SVG ") {
+                    continue;
+                }
+                if *l as u32 > start {
+                    v.push((*i, *t, start));
+                    any = true;
+                }
+            }
+            start += WINDOW;
+            if !any || start > 64 * 1024 {
+                break;
+            }
+        }
+        v
+    })
+}
+
+pub struct ReadWindowEnum;
+
+impl Engine for ReadWindowEnum {
+    type Trace = EnumTrace;
+    fn name(&self) -> &'static str {
+        "table_windows_enumerated_read"
+    }
+    fn rule(&self) -> &'static str {
+        "case = one 64-byte window of one (corpus font, table) pair beyond the first 256 bytes, chosen by case index breadth first (window k of every table before window k+1 of any); inside the case EVERY single-bit flip and every byte set to 0x00 and 0xFF in the window is applied in turn, the sfnt re-assembled, and the table's reader, traversal and helpers swept; non-trivial always"
+    }
+    fn components(&self) -> &'static str {
+        "real: read-fonts readers, traversal and the table's helper functions for the faulted table; stub: fault injector, walker budgets"
+    }
+    fn generate(&self, case_seed: u64) -> EnumTrace {
+        self.generate_indexed(case_seed, case_seed)
+    }
+    fn generate_indexed(&self, index: u64, _case_seed: u64) -> EnumTrace {
+        let w = table_windows();
+        let (image, table, start) = w[(index % w.len() as u64) as usize];
+        EnumTrace { image, table, only: None, cuts: 0, bits: WINDOW * 8, start, byte_sets: true }
+    }
+    fn execute(&self, t: &mut EnumTrace, stats: &mut Stats) -> Verdict {
+        enum_execute(false, t, stats)
     }
     fn shrink(&self, _t: &EnumTrace) -> Vec<EnumTrace> {
         vec![]
     }
+}
+
+pub fn table_window_count() -> u64 {
+    table_windows().len() as u64
 }
 
 // ------------------------------------------------------------------ skrifa sweep (C02 surface 3)
@@ -1366,19 +1464,37 @@ fn outline_chunks(limit: usize) -> Vec<(usize, [u8; 4], u32)> {
                 let mut s = 0;
                 while s < (*l).min(limit) {
                     v.push((i, t.to_be_bytes(), s as u32));
-                    s += CHUNK;
+                    s += chunk_len(img.extended);
                 }
             }
         }
     }
-    // breadth first: a prefix of the list covers the early bytes of every table before any table's later bytes
-    v.sort_by_key(|c| (c.2, c.0, c.1));
+    // breadth first: a prefix of the list covers the early bytes of every table before any table's later bytes;
+    // the quick tier (first group) takes 4 KiB of the purpose-built corpus and 768 bytes of the real-world fonts
+    v.sort_by_key(|c| (!in_quick_group(c), c.2, c.0, c.1));
     v
+}
+
+fn in_quick_group(c: &(usize, [u8; 4], u32)) -> bool {
+    if images()[c.0].extended {
+        c.2 < 384
+    } else {
+        c.2 < 4096
+    }
+}
+
+/// Real-world fonts cost far more per draw (real programs, many scripts): smaller chunks per case.
+fn chunk_len(extended: bool) -> usize {
+    if extended {
+        64
+    } else {
+        CHUNK
+    }
 }
 
 /// Draws the glyphs a fault at `offset` of `table` lands in (or a sample) under the configurations
 /// that exercise scaling, both hinting engines and variation.
-fn focused_draws(bytes: &[u8], orig: &FontRef, table: Tag, offset: usize, stats: &mut Stats) -> u64 {
+fn focused_draws(bytes: &[u8], orig: &FontRef, table: Tag, offset: usize, light: bool, stats: &mut Stats) -> u64 {
     use skrifa::instance::{LocationRef, Size};
     use skrifa::outline::{DrawSettings, HintingInstance, HintingOptions};
     use skrifa::MetadataProvider;
@@ -1412,24 +1528,30 @@ fn focused_draws(bytes: &[u8], orig: &FontRef, table: Tag, offset: usize, stats:
     let axes = font.axes();
     let loc = axes.location([("wght", 650.0f32), ("wdth", 80.0), ("opsz", 20.0)]);
     let zero: Vec<skrifa::instance::NormalizedCoord> = vec![];
-    let locs: [&[skrifa::instance::NormalizedCoord]; 2] = [&zero, loc.coords()];
+    let both: [&[skrifa::instance::NormalizedCoord]; 2] = [&zero, loc.coords()];
+    // a second location only where there are axes
+    let locs: &[&[skrifa::instance::NormalizedCoord]] = if axes.is_empty() { &both[..1] } else { &both[..] };
     let sizes = [Size::new(16.0), Size::unscaled(), Size::new(1000.0)];
     let mut insts: Vec<HintingInstance> = Vec::new();
-    for coords in locs {
+    for coords in locs.iter().copied() {
         for eng in [0u8, 1] {
-            for tgt in [0u8, 1, 2] {
+            // real-world fonts: two interpreter targets and one auto-hinter target
+            let tgts: &[u8] = if !light { &[0, 1, 2] } else if eng == 0 { &[0, 1] } else { &[1] };
+            for tgt in tgts.iter().copied() {
                 if let Ok(i) = HintingInstance::new(&outlines, sizes[0], LocationRef::new(coords), HintingOptions { engine: crate::engines::drawhist::engine_of(eng), target: crate::engines::drawhist::target_of(tgt) }) {
                     insts.push(i);
                 }
             }
         }
     }
-    if let Ok(i) = HintingInstance::new(&outlines, sizes[2], LocationRef::new(&zero), HintingOptions { engine: crate::engines::drawhist::engine_of(1), target: crate::engines::drawhist::target_of(1) }) {
-        insts.push(i);
+    if !light {
+        if let Ok(i) = HintingInstance::new(&outlines, sizes[2], LocationRef::new(&zero), HintingOptions { engine: crate::engines::drawhist::engine_of(1), target: crate::engines::drawhist::target_of(1) }) {
+            insts.push(i);
+        }
     }
     for g in gids {
         let Some(glyph) = outlines.get(GlyphId::new(g)) else { continue };
-        for coords in locs {
+        for coords in locs.iter().copied() {
             for s in sizes {
                 let mut rec = Recording::default();
                 d.u64(glyph.draw(DrawSettings::unhinted(s, LocationRef::new(coords)), &mut rec).is_ok() as u64 ^ ((rec.cmds.len() as u64) << 1));
@@ -1447,7 +1569,7 @@ fn focused_draws(bytes: &[u8], orig: &FontRef, table: Tag, offset: usize, stats:
             let mut rec = Recording::default();
             d.u64(glyph.draw(DrawSettings::hinted(i, true), &mut rec).is_ok() as u64);
         }
-        for coords in locs {
+        for coords in locs.iter().copied() {
             let gm = font.glyph_metrics(sizes[0], LocationRef::new(coords));
             d.u64(gm.advance_width(GlyphId::new(g)).map(|x| x.to_bits() as u64).unwrap_or(1));
             d.u64(gm.bounds(GlyphId::new(g)).map(|b| b.x_max.to_bits() as u64).unwrap_or(1));
@@ -1484,7 +1606,7 @@ impl Engine for OutlineBitEnum {
                 dd[(index as usize - q.len()) % dd.len()]
             }
         };
-        OutlineEnumTrace { image, table, start, len: CHUNK as u32, only_bit: None }
+        OutlineEnumTrace { image, table, start, len: chunk_len(images()[image].extended) as u32, only_bit: None }
     }
     fn execute(&self, t: &mut OutlineEnumTrace, stats: &mut Stats) -> Verdict {
         let img = &images()[t.image];
@@ -1512,7 +1634,7 @@ impl Engine for OutlineBitEnum {
             b.copy_missing_tables(fr.clone());
             let image = b.build();
             t.only_bit = Some(bit);
-            d.u64(focused_draws(&image, &fr, tag, i, stats));
+            d.u64(focused_draws(&image, &fr, tag, i, img.extended, stats));
             stats.bump("oracle.C02.total_sweep");
         }
         t.only_bit = None;
@@ -1521,5 +1643,5 @@ impl Engine for OutlineBitEnum {
 }
 
 pub fn outline_chunk_count_quick() -> u64 {
-    outline_chunks(4096).len() as u64
+    outline_chunks(4096).iter().filter(|c| in_quick_group(c)).count() as u64
 }
